@@ -13,6 +13,10 @@ import (
 // server.
 func genConcurrent(r *Rand, n int, o histOpts, limit int) *Case {
 	c := &Case{Server: ServerCfg{Limit: limit}, Programs: map[string]*Program{}}
+	if r.Chance(1, 3) {
+		// authenticating users: the password exchange of several connections overlaps
+		c.Server.Auth = "cleartext"
+	}
 	for i := 0; i < n; i++ {
 		oo := o
 		oo.prefix = fmt.Sprintf("c%d", i)
